@@ -4,7 +4,7 @@ SPEC = {
     'technique': 'explicit-state exploration of all operation histories (mock / GC / drop builder / reset) up to a depth bound on the real library against a per-variable dispatch model, with deterministic use-after-free detection (GODEBUG=clobberfree=1) and crash capture',
     'claim': 'after every history of length <= 3 (quick: 2 variables of one 3-method interface type, Apply and As.Return) / <= 4 (thorough: plus a variable of a 5-method embedding interface and As.When) of mock / GC / DropBuilder(+GC) / Reset / the program assigning another implementation or nil to a variable (at most once), on variables that include two of function-local interface types of one name, starting from nil and from a real implementation, every mocked variable is non-nil, every mocked method reaches its own replacement with the caller\'s argument, every unmocked method of a mocked variable panics with "method not implements", untouched variables keep their value and Reset puts back the exact two words the variable held before',
     'note': 'a variable that is re-mocked by a new builder while it still holds a dropped builder\'s mock is executed but not judged; GC is forced (runtime.GC x3 with heap churn) rather than awaited',
-    'jobs': [{'bin': 'c07', 'shards': 16, 'max_restarts': 40, 'single_timeout': 60, 'maxcases': 4000}],
+    'jobs': [{'bin': 'c07', 'shards': 16, 'max_restarts': 40, 'single_timeout': 60, 'maxcases': 4000, 'budget': {'thorough': 2400}}],
     'rule': 'all sequences over the alphabet (quick 19 / thorough 36 operations) x {initial nil, initial real implementation}; after the last step every method of every variable is called with 7 and 8; distinct_nontrivial = histories of length >= 2 containing a mock; a worker death is attributed to the recorded history and confirmed by 3 isolated replays.',
     'assumptions': ['each worker process executes at most 4000 histories and is then restarted (goom never unmaps stub pages; vm.max_map_count)'],
 }
